@@ -1,14 +1,22 @@
 """
 C09 — generators / async functions resume faithfully under any driver call sequence.
 
-Check = Lean theorems on the spec model GenReplay (a generator body IS a state machine) and on the mechanism model
-GenCtx (suspend/resume offset rebasing)  +  differential correspondence of the real goja against the executable
-models: bodies from a grammar x driver histories (exhaustive to length 4 over {next,throw,return} x 2 payloads,
-sampled to length 6), every command issued from a different host stack depth; white-box dumps of the generator's
-try frames before suspension / saved / after resumption checked against the model's `suspend`/`resume`;
-the same bodies as async functions driven by settled / later-settled promises.
+Check = Lean theorems on the spec model GenReplay (a generator body IS a state machine), on the mechanism model
+GenCtx (suspend/resume offset rebasing, handleThrow, enterNextFinallyFrame), on their link (GenLink) and on the async
+runner (Async)  +  differential correspondence of the real goja against the executable models: bodies from a grammar
+x driver histories (exhaustive to length 4 over {next,throw,return} x 2 payloads, sampled to length 6), every command
+issued from a different host stack depth; white-box dumps of the generator's try frames before suspension / saved /
+after resumption checked against the model's `suspend`/`resume`; the same bodies as async functions driven by
+settled / later-settled promises.
+
+AST (python tuples/lists; JSON round trip turns tuples into lists, everything below only indexes):
+  expr : ("L",val) ("V",x) ("A",a,b) ("Y",e) ("YS",spec) ("C",[(spread,e)..]) ("T",lit0,[(e,lit)..]) ("=",x,e) ("B",x,e) ("R",k)
+  cond : ("EQ"|"NE",a,b)
+  stmt : ("X",e) ("G",e) ("D",[(x,default|None)..],[(spread,e)..]) ("I",cond,then,else) ("F",lbl,x,n,body) ("W",lbl,cond,body)
+         ("TR",block,(x,catch)|None,finally|None) ("O",lbl,x,("a",args)|("t",spec),body) ("RT",e) ("TH",e) ("BK",lbl) ("CN",lbl)
+  spec : (id, is_gen, ret(0 none,1 ok,2 throws), thr(0 none,1 rethrow,2 done,3 continue), [items]);  lbl : None | int
 """
-import json, os, itertools, hashlib, subprocess, sys
+import json, os, itertools, hashlib, time
 from concurrent.futures import ThreadPoolExecutor
 from vlib import *
 
@@ -32,10 +40,17 @@ def B(x, e): return ("B", x, e)
 def X(e): return ("X", e)
 def G(e): return ("G", e)
 def TR(b, c=None, f=None): return ("TR", b, c, f)
+def F(x, n, body, lbl=None): return ("F", lbl, x, n, body)
+def W(cond, body, lbl=None): return ("W", lbl, cond, body)
+def O(x, src, body, lbl=None): return ("O", lbl, x, src, body)
+def BK(lbl=None): return ("BK", lbl)
+def CN(lbl=None): return ("CN", lbl)
 
-def spec(id, is_gen, has_ret=0, thr=0, items=("i1", "i2")): return (id, is_gen, has_ret, thr, list(items))
+def spec(id, is_gen, ret=0, thr=0, items=("i1", "i2")): return (id, int(is_gen), ret, thr, list(items))
 
 # ---- tokens (the Lean driver's input format)
+def tok_lbl(l): return ["_" if l is None else str(l)]
+
 def tok_spec(s):
     return [str(s[0]), "g" if s[1] else "o", str(int(s[2])), str(s[3]), str(len(s[4]))] + list(s[4])
 
@@ -81,19 +96,20 @@ def tok_s(s):
             out += [str(x)] + (["-"] if d is None else ["+"] + tok_e(d))
         return out + tok_args(s[2])
     if t == "I": return ["I"] + tok_c(s[1]) + tok_block(s[2]) + tok_block(s[3])
-    if t == "F": return ["F", str(s[1]), str(s[2])] + tok_block(s[3])
-    if t == "W": return ["W"] + tok_c(s[1]) + tok_block(s[2])
+    if t == "F": return ["F"] + tok_lbl(s[1]) + [str(s[2]), str(s[3])] + tok_block(s[4])
+    if t == "W": return ["W"] + tok_lbl(s[1]) + tok_c(s[2]) + tok_block(s[3])
     if t == "TR":
         out = ["TR"] + tok_block(s[1])
         out += ["-"] if s[2] is None else ["c", str(s[2][0])] + tok_block(s[2][1])
         out += ["-"] if s[3] is None else ["f"] + tok_block(s[3])
         return out
     if t == "O":
-        src = s[2]
-        return ["O", str(s[1])] + (["a"] + tok_args(src[1]) if src[0] == "a" else ["t"] + tok_spec(src[1])) + tok_block(s[3])
+        src = s[3]
+        return ["O"] + tok_lbl(s[1]) + [str(s[2])] + (["a"] + tok_args(src[1]) if src[0] == "a" else ["t"] + tok_spec(src[1])) + tok_block(s[4])
     if t == "RT": return ["RT"] + tok_e(s[1])
     if t == "TH": return ["TH"] + tok_e(s[1])
-    if t == "BK": return ["BK"]
+    if t == "BK": return ["BK"] + tok_lbl(s[1])
+    if t == "CN": return ["CN"] + tok_lbl(s[1])
     raise ValueError(s)
 
 # ---- JavaScript
@@ -101,8 +117,10 @@ def js_val(v):
     return "undefined" if v == "u" else v[1:] if v[0] == "i" else json.dumps(v[1:])
 
 def js_spec(s):
-    return "MK(%d,%s,%s,%d,[%s])" % (s[0], "true" if s[1] else "false", "true" if s[2] else "false", s[3],
-                                     ",".join(js_val(v) for v in s[4]))
+    return "MK(%d,%s,%d,%d,[%s])" % (s[0], "true" if s[1] else "false", int(s[2]), s[3], ",".join(js_val(v) for v in s[4]))
+
+def js_lbl(l): return "" if l is None else "L%d: " % l
+def js_tgt(l): return "" if l is None else " L%d" % l
 
 class JS:
     def __init__(self, mode="gen", probe=False):
@@ -141,8 +159,8 @@ class JS:
             tg = ", ".join("x%d" % x + ("" if d is None else " = " + self.e(d)) for x, d in s[1])
             return "[%s] = [%s];" % (tg, self.args(s[2]))
         if t == "I": return "if (%s) %s else %s" % (self.c(s[1]), self.block(s[2]), self.block(s[3]))
-        if t == "F": return "for (x%d = 0; x%d !== %d; x%d = x%d + 1) %s" % (s[1], s[1], s[2], s[1], s[1], self.block(s[3]))
-        if t == "W": return "while (%s) %s" % (self.c(s[1]), self.block(s[2]))
+        if t == "F": return "%sfor (x%d = 0; x%d !== %d; x%d = x%d + 1) %s" % (js_lbl(s[1]), s[2], s[2], s[3], s[2], s[2], self.block(s[4]))
+        if t == "W": return "%swhile (%s) %s" % (js_lbl(s[1]), self.c(s[2]), self.block(s[3]))
         if t == "TR":
             out = "try " + self.block(s[1])
             if s[2] is not None:
@@ -151,15 +169,16 @@ class JS:
                 out += " finally " + self.block(s[3])
             return out
         if t == "O":
-            src = s[2]
-            return "for (x%d of %s) %s" % (s[1], "[%s]" % self.args(src[1]) if src[0] == "a" else js_spec(src[1]), self.block(s[3]))
+            src = s[3]
+            return "%sfor (x%d of %s) %s" % (js_lbl(s[1]), s[2], "[%s]" % self.args(src[1]) if src[0] == "a" else js_spec(src[1]), self.block(s[4]))
         if t == "RT": return "return %s;" % self.e(s[1])
         if t == "TH": return "throw %s;" % self.e(s[1])
-        if t == "BK": return "break;"
+        if t == "BK": return "break%s;" % js_tgt(s[1])
+        if t == "CN": return "continue%s;" % js_tgt(s[1])
         raise ValueError(s)
 
 def js_func(body, mode, probe, decl):
-    """decl: (kw for x0..x5 as a string of 'l'/'v', set of extra captured vars)"""
+    """decl: (declaration keyword of x0..x5 as a string of 'l'/'v', set of extra closure-captured vars)"""
     j = JS(mode, probe)
     kws, cap = decl
     lets = [i for i in range(6) if kws[i] == "l"]
@@ -177,77 +196,95 @@ def js_func(body, mode, probe, decl):
 def expr_nodes(e):
     yield e
     t = e[0]
-    if t in ("A",): yield from expr_nodes(e[1]); yield from expr_nodes(e[2])
-    elif t in ("Y",): yield from expr_nodes(e[1])
+    if t == "A": yield from expr_nodes(e[1]); yield from expr_nodes(e[2])
+    elif t == "Y": yield from expr_nodes(e[1])
     elif t == "C":
         for _, a in e[1]: yield from expr_nodes(a)
     elif t == "T":
         for a, _ in e[2]: yield from expr_nodes(a)
     elif t in ("=", "B"): yield from expr_nodes(e[2])
 
-def stmt_exprs(s):
+def sub_blocks(s):
+    """(index-path setter info) child blocks of a statement: list of (key, block)"""
     t = s[0]
-    if t in ("X", "G", "RT", "TH"): yield from expr_nodes(s[1])
-    elif t == "D":
-        for _, d in s[1]:
-            if d is not None: yield from expr_nodes(d)
-        for _, a in s[2]: yield from expr_nodes(a)
-    elif t == "I":
-        yield from expr_nodes(s[1][1]); yield from expr_nodes(s[1][2])
-        for b in (s[2], s[3]):
-            for z in b: yield from stmt_exprs(z)
-    elif t in ("F",):
-        for z in s[3]: yield from stmt_exprs(z)
-    elif t == "W":
-        yield from expr_nodes(s[1][1]); yield from expr_nodes(s[1][2])
-        for z in s[2]: yield from stmt_exprs(z)
-    elif t == "TR":
-        for z in s[1]: yield from stmt_exprs(z)
-        if s[2] is not None:
-            for z in s[2][1]: yield from stmt_exprs(z)
-        if s[3] is not None:
-            for z in s[3]: yield from stmt_exprs(z)
-    elif t == "O":
-        if s[2][0] == "a":
-            for _, a in s[2][1]: yield from expr_nodes(a)
-        for z in s[3]: yield from stmt_exprs(z)
+    if t == "I": return [(2, s[2]), (3, s[3])]
+    if t == "F": return [(4, s[4])]
+    if t == "W": return [(3, s[3])]
+    if t == "O": return [(4, s[4])]
+    if t == "TR":
+        out = [(1, s[1])]
+        if s[2] is not None: out.append(("c", s[2][1]))
+        if s[3] is not None: out.append((3, s[3]))
+        return out
+    return []
+
+def own_exprs(s):
+    t = s[0]
+    if t in ("X", "G", "RT", "TH"): return [s[1]]
+    if t == "D": return [d for _, d in s[1] if d is not None] + [a for _, a in s[2]]
+    if t == "I": return [s[1][1], s[1][2]]
+    if t == "W": return [s[2][1], s[2][2]]
+    if t == "O" and s[3][0] == "a": return [a for _, a in s[3][1]]
+    return []
+
+def stmt_exprs(s):
+    for e in own_exprs(s):
+        yield from expr_nodes(e)
+    for _, b in sub_blocks(s):
+        for z in b:
+            yield from stmt_exprs(z)
 
 def body_features(body):
     f = set()
     def ws(s, ctx):
-        f.add("s:" + s[0])
         t = s[0]
-        for e in (stmt_exprs(s) if t in ("X", "G", "RT", "TH", "D") else []):
-            f.add("e:" + e[0])
-            if e[0] in ("Y", "YS"):
-                f.add("yield-in:" + ctx)
-        if t == "I":
-            for e in list(expr_nodes(s[1][1])) + list(expr_nodes(s[1][2])):
-                if e[0] == "Y": f.add("yield-in:cond")
-            for z in s[2] + s[3]: ws(z, ctx)
-        elif t == "F":
-            for z in s[3]: ws(z, "loop")
-        elif t == "W":
-            for z in s[2]: ws(z, "loop")
-        elif t == "TR":
+        f.add("s:" + t + ("+label" if t in ("BK", "CN") and s[1] is not None else ""))
+        for e0 in own_exprs(s):
+            for e in expr_nodes(e0):
+                f.add("e:" + e[0])
+                if e[0] in ("Y", "YS"):
+                    f.add("yield-in:" + ("cond" if t in ("I", "W") else ctx))
+        if t == "O":
+            sp = s[3]
+            f.add("forof:" + ("arr" if sp[0] == "a" else ("gen" if sp[1][1] else "obj-ret%d" % sp[1][2])))
+        if t == "TR":
             for z in s[1]: ws(z, "try")
             if s[2] is not None:
                 for z in s[2][1]: ws(z, "catch")
             if s[3] is not None:
                 for z in s[3]: ws(z, "finally")
-        elif t == "O":
-            f.add("forof:" + ("arr" if s[2][0] == "a" else ("gen" if s[2][1][1] else "obj")))
-            for z in s[3]: ws(z, "forof")
+        else:
+            for _, b in sub_blocks(s):
+                for z in b: ws(z, {"F": "loop", "W": "loop", "O": "forof"}.get(t, ctx))
     for s in body: ws(s, "top")
     return f
 
 def async_ok(body):
     return not any(e[0] in ("YS", "R") for s in body for e in stmt_exprs(s))
 
+def count_yields(body):
+    return sum(1 for s in body for e in stmt_exprs(s) if e[0] in ("Y", "YS"))
+
+def bad_jumps(body, labels=(), inloop=False):
+    """True if a break/continue has no target (used by the shrinker to reject candidates)."""
+    for s in body:
+        t = s[0]
+        if t in ("BK", "CN"):
+            if s[1] is None and not inloop: return True
+            if s[1] is not None and s[1] not in labels: return True
+        elif t in ("F", "W", "O"):
+            lb = labels + ((s[1],) if s[1] is not None else ())
+            if bad_jumps(sub_blocks(s)[0][1], lb, True): return True
+        else:
+            for _, b in sub_blocks(s):
+                if bad_jumps(b, labels, inloop): return True
+    return False
+
 # ----------------------------------------------------------------------------------------- systematic bodies
 def systematic_bodies():
     """Hand-enumerated bodies: a yield in every expression position, every region of try/catch/finally, every loop
-    kind, every iterator-spec variant for yield* and for-of.  Always run, exhaustively to length 4."""
+    kind with break/continue (labelled and not), every iterator-spec variant for yield* and for-of (incl. a throwing
+    `return`).  Always run, exhaustively to length 4."""
     y1, y2, y3 = Y(L("i1")), Y(L("i2")), Y(L("i3"))
     bs = []
     bs.append([G(A(y1, y2))])                                                  # operands
@@ -281,27 +318,37 @@ def systematic_bodies():
     bs.append([TR([G(y1)], None, [("RT", y2)]), G(L("sd"))])                   # finally overrides
     bs.append([TR([G(y1)], None, [("TH", L("sz"))]), G(L("sd"))])
     bs.append([TR([TR([G(y1)], None, [G(L("sf1")), ("TH", y2)])], (0, [G(V(0))]), [G(L("sf2"))])])
-    # loops
-    bs.append([("F", 3, 2, [G(A(V(3), y1))]), G(L("sd"))])
-    bs.append([("F", 3, 2, [TR([G(y1), ("BK",)], None, [G(y2)])]), G(L("sd"))])
-    bs.append([X(ASG(2, L("i0"))), ("W", ("NE", V(2), L("i2")), [X(ASG(2, A(V(2), L("i1")))), G(A(y1, V(2)))]), G(L("sd"))])
-    bs.append([("O", 0, ("a", [(False, L("i1")), (False, y1), (True, y2)]), [G(A(V(0), y3))]), G(L("sd"))])
-    bs.append([("O", 0, ("a", [(False, L("i1")), (False, L("i2"))]), [TR([G(y1)], None, [G(V(0))])]), G(L("sd"))])
+    bs.append([TR([TR([G(y1)], None, [TR([("TH", L("i3"))], (1, [G(V(1))]), None), G(y2)])], (0, [G(V(0))]), [G(L("so"))]), ("RT", L("i9"))])
+    # loops, break / continue
+    bs.append([F(3, 2, [G(A(V(3), y1))]), G(L("sd"))])
+    bs.append([F(3, 2, [TR([G(y1), BK()], None, [G(y2)])]), G(L("sd"))])
+    bs.append([F(3, 2, [TR([G(y1), CN()], None, [G(y2)]), G(L("sn"))]), G(L("sd"))])
+    bs.append([F(3, 2, [TR([G(y1)], None, [BK()])]), TR([G(("R", 2))], None, [("TH", CJ(SP(L("i1"))))])])   # break out of a return-triggered finally
+    bs.append([X(ASG(2, L("i0"))), W(("NE", V(2), L("i2")), [X(ASG(2, A(V(2), L("i1")))), G(A(y1, V(2)))]), G(L("sd"))])
+    bs.append([X(ASG(2, L("i0"))), W(("NE", V(2), L("i2")), [X(ASG(2, A(V(2), L("i1")))), ("I", ("EQ", y1, L("i7")), [CN()], []), G(V(2))]), G(L("sd"))])
+    bs.append([O(0, ("a", [(False, L("i1")), (False, y1), (True, y2)]), [G(A(V(0), y3))]), G(L("sd"))])
+    bs.append([O(0, ("a", [(False, L("i1")), (False, L("i2"))]), [TR([G(y1)], None, [G(V(0))])]), G(L("sd"))])
+    bs.append([F(3, 2, [O(0, ("t", spec(1, 1)), [TR([G(y1), CN(1)], None, [G(L("sf"))]), G(L("sx"))])], 1), G(L("sd"))])   # labelled continue through for-of + finally
+    bs.append([O(0, ("t", spec(1, 0, 1, 0)), [O(1, ("t", spec(2, 1)), [("I", ("EQ", y1, L("i7")), [BK(1)], [CN(1)])]), G(L("sx"))], 1), G(L("sd"))])
     n = 0
     for is_gen in (1, 0):
-        for has_ret in ((0,) if is_gen else (0, 1)):
+        for ret in ((0,) if is_gen else (0, 1, 2)):
             for thr in ((0,) if is_gen else (0, 1, 2, 3)):
+                if ret == 2 and thr in (2, 3): continue
                 n += 1
-                sp = spec(n % 10, is_gen, has_ret, thr)
+                sp = spec(n % 10, is_gen, ret, thr)
                 bs.append([G(A(L("sv"), YS(sp))), G(L("sd"))])                                     # yield* value
                 bs.append([TR([X(YS(sp))], (0, [G(V(0)), G(y1)]), [G(L("sf"))]), G(L("sd"))])      # yield* in try
                 if thr in (0, 1):
-                    bs.append([("O", 1, ("t", sp), [G(A(V(1), y1))]), G(L("sd"))])                 # for-of over it
-                    bs.append([TR([("O", 1, ("t", sp), [TR([G(y1)], None, [G(L("sfi"))])])], (0, [G(V(0))]), [G(y2)])])
-    bs.append([("O", 0, ("t", spec(1, 1)), [("O", 1, ("t", spec(2, 0, 1, 0)), [G(CJ(V(0), V(1), y1))])]), G(L("sd"))])
-    bs.append([("O", 0, ("t", spec(1, 1)), [G(y1), ("BK",)]), G(y2)])
+                    bs.append([O(1, ("t", sp), [G(A(V(1), y1))]), G(L("sd"))])                     # for-of over it
+                    bs.append([TR([O(1, ("t", sp), [TR([G(y1)], None, [G(L("sfi"))])])], (0, [G(V(0))]), [G(y2)])])
+                    bs.append([TR([O(1, ("t", sp), [("I", ("EQ", y1, L("i7")), [BK()], [CN()])])], (0, [G(V(0))]), None), G(L("sd"))])
+    bs.append([O(0, ("t", spec(1, 1)), [O(1, ("t", spec(2, 0, 1, 0)), [G(CJ(V(0), V(1), y1))])]), G(L("sd"))])
+    bs.append([O(0, ("t", spec(1, 1)), [G(y1), BK()]), G(y2)])
     bs.append([X(YS(spec(3, 0, 1, 0, []))), X(YS(spec(4, 1, 0, 0, []))), G(y1)])
     bs.append([G(A(YS(spec(5, 1, 0, 0, ["i1"])), YS(spec(6, 0, 0, 3, ["i2"]))))])
+    # the seed-3 finding of round 1 (handleThrow's stale try-frame pointer after an inner generator's return()), generalised
+    bs.append([TR([O(1, ("t", spec(5, 1, 0, 0, ["i1"])), [G(Y(y1))])], None, [F(3, 2, [G(L("spq")), G(ASG(1, A(Y(L("sa")), L("i7"))))])])])
     return bs
 
 # ----------------------------------------------------------------------------------------- random bodies
@@ -317,7 +364,9 @@ class Gen:
         self.nid = (self.nid + 1) % 10
         is_gen = self.r.random() < 0.5
         items = [self.r.choice(["i1", "i2", "sk", "u"]) for _ in range(self.r.choice([0, 1, 2, 2, 3]))]
-        return spec(self.nid, int(is_gen), 0 if is_gen else self.r.randrange(2), 0 if is_gen else self.r.randrange(4), items)
+        ret = 0 if is_gen else self.r.choice([0, 1, 1, 2])
+        thr = 0 if is_gen else (self.r.randrange(2) if ret == 2 else self.r.randrange(4))
+        return spec(self.nid, int(is_gen), ret, thr, items)
 
     def expr(self, d, inloop=False):
         r = self.r
@@ -340,52 +389,60 @@ class Gen:
     def block(self, d, n, ctx):
         return [self.stmt(d, ctx) for _ in range(n)]
 
+    def label(self, ctx):
+        if self.r.random() < 0.3:
+            l = len(ctx["labels"]) + 1
+            return l, dict(ctx, loop=True, labels=ctx["labels"] + [l])
+        return None, dict(ctx, loop=True)
+
     def stmt(self, d, ctx):
-        """ctx: dict(loop=bool, f=bool(F var in use), w=bool)"""
+        """ctx: dict(loop=bool, f=bool (the `for` variable x3 is in use), labels=[enclosing loop labels])"""
         r = self.r
         k = r.random()
         ed = r.choice([1, 1, 2, 2, 3])
-        if d <= 0 or k < 0.22: return G(self.expr(ed, ctx["loop"]))
-        if k < 0.32: return X(self.expr(ed, ctx["loop"]))
-        if k < 0.40:
+        if d <= 0 or k < 0.21: return G(self.expr(ed, ctx["loop"]))
+        if k < 0.30: return X(self.expr(ed, ctx["loop"]))
+        if k < 0.38:
             tg = [(r.choice([0, 1, 4]), self.expr(1) if r.random() < 0.6 else None) for _ in range(r.randrange(1, 4))]
             src = [(r.random() < 0.25, self.expr(1) if r.random() < 0.5 else L("u")) for _ in range(r.randrange(0, 3))]
             return ("D", tg, src)
-        if k < 0.48: return ("I", self.cond(1), self.block(d - 1, r.randrange(1, 3), ctx), self.block(d - 1, r.randrange(0, 2), ctx))
-        if k < 0.56 and not ctx["f"]:
-            return ("F", 3, r.choice([1, 2, 2]), self.block(d - 1, r.randrange(1, 3), dict(ctx, loop=True, f=True)))
-        if k < 0.76:
+        if k < 0.46: return ("I", self.cond(1), self.block(d - 1, r.randrange(1, 3), ctx), self.block(d - 1, r.randrange(0, 2), ctx))
+        if k < 0.54 and not ctx["f"]:
+            lbl, c2 = self.label(ctx)
+            return F(3, r.choice([1, 2, 2]), self.block(d - 1, r.randrange(1, 3), dict(c2, f=True)), lbl)
+        if k < 0.74:
             b = self.block(d - 1, r.randrange(1, 3), ctx)
             c = (r.choice([0, 1]), self.block(d - 1, r.randrange(1, 3), ctx)) if r.random() < 0.55 else None
             f = self.block(d - 1, r.randrange(1, 3), ctx) if (c is None or r.random() < 0.6) else None
             return TR(b, c, f)
-        if k < 0.88:
+        if k < 0.86:
             x = r.choice([0, 1])
             if r.random() < 0.4:
                 src = ("a", [(r.random() < 0.2, self.expr(1)) for _ in range(r.randrange(1, 3))])
             else:
                 src = ("t", self.spec())
-            return ("O", x, src, self.block(d - 1, r.randrange(1, 3), dict(ctx, loop=True)))
-        if k < 0.92: return ("RT", self.expr(ed, ctx["loop"]))
-        if k < 0.96: return ("TH", self.expr(1, ctx["loop"]))
-        if ctx["loop"]: return ("BK",)
+            lbl, c2 = self.label(ctx)
+            return O(x, src, self.block(d - 1, r.randrange(1, 3), c2), lbl)
+        if k < 0.90: return ("RT", self.expr(ed, ctx["loop"]))
+        if k < 0.93: return ("TH", self.expr(1, ctx["loop"]))
+        if ctx["loop"]:
+            lbl = r.choice(ctx["labels"]) if (ctx["labels"] and r.random() < 0.5) else None
+            return BK(lbl) if r.random() < 0.5 else CN(lbl)
         return G(self.expr(ed))
 
     def body(self):
         r = self.r
-        b = self.block(r.choice([1, 2, 2, 3]), r.randrange(1, 5), dict(loop=False, f=False, w=False))
-        if r.random() < 0.15:   # a while loop with a dedicated counter x2
-            b.insert(r.randrange(len(b) + 1), ("W", ("NE", V(2), L("i%d" % r.choice([1, 2]))),
-                     [X(ASG(2, A(V(2), L("i1"))))] + self.block(1, r.randrange(1, 3), dict(loop=True, f=False, w=True))))
+        top = dict(loop=False, f=False, labels=[])
+        b = self.block(r.choice([1, 2, 2, 3]), r.randrange(1, 5), top)
+        if r.random() < 0.15:   # a while loop with a dedicated counter x2 (incremented first, so `continue` terminates)
+            b.insert(r.randrange(len(b) + 1), W(("NE", V(2), L("i%d" % r.choice([1, 2]))),
+                     [X(ASG(2, A(V(2), L("i1"))))] + self.block(1, r.randrange(1, 3), dict(top, loop=True))))
             b.insert(0, X(ASG(2, L("i0"))))
         return b
 
     def decl(self):
         r = self.r
         return ("".join(r.choice("lv") for _ in range(6)), set(i for i in range(4) if r.random() < 0.25))
-
-def count_yields(body):
-    return sum(1 for s in body for e in stmt_exprs(s) if e[0] in ("Y", "YS"))
 
 # ----------------------------------------------------------------------------------------- histories
 def all_hists(alpha, n):
@@ -395,25 +452,38 @@ def rand_digits(rng, n, base):
     return "".join(str(rng.randrange(base)) for _ in range(n))
 
 # ----------------------------------------------------------------------------------------- running
-def shard_run(ctx, cmd, lines, nshard=12, timeout=900):
-    """Run a line-protocol command over `lines`, sharded; returns output lines in order (None on failure)."""
+def shard_run(ctx, cmd, lines, nshard=14, timeout=600, what=""):
+    """Run a line-protocol command over `lines`, sharded.  A shard that fails or times out is retried once, alone and
+    with a longer timeout (a slow machine is not a violation).  Returns (outputs in order, list of line indices that
+    still produced nothing — each of those was run alone with a generous timeout)."""
     if not lines:
-        return []
+        return [], []
     nshard = max(1, min(nshard, len(lines)))
-    chunks = [lines[i::nshard] for i in range(nshard)]
-    def one(ch):
-        rc, out, err = ctx.run_lines(cmd, ch, timeout=timeout)
-        return rc, out, err
-    with ThreadPoolExecutor(nshard) as ex:
-        res = list(ex.map(one, chunks))
+    idx = [list(range(i, len(lines), nshard)) for i in range(nshard)]
     out = [None] * len(lines)
-    for si, (rc, o, err) in enumerate(res):
-        if rc != 0 or len(o) != len(chunks[si]):
-            ctx.log("shard failed rc=%s out=%d/%d err=%s" % (rc, len(o), len(chunks[si]), err[-300:]))
-            return None
-        for j, l in enumerate(o):
-            out[si + j * nshard] = l
-    return out
+    def one(ix, to):
+        rc, o, err = ctx.run_lines(cmd, [lines[i] for i in ix], timeout=to)
+        return ix, rc, o, err
+    with ThreadPoolExecutor(nshard) as ex:
+        res = list(ex.map(lambda ix: one(ix, timeout), idx))
+    retry = []
+    for ix, rc, o, err in res:
+        if rc == 0 and len(o) == len(ix):
+            for i, l in zip(ix, o): out[i] = l
+        else:
+            ctx.log("%s shard inconclusive (rc=%s, %d/%d lines) — retrying: %s" % (what, rc, len(o), len(ix), err[-200:]))
+            for i, l in zip(ix, o): out[i] = l          # lines answered before the failure are good
+            retry += [i for i in ix[len(o):]]
+    dead = []
+    if retry:
+        def alone(i):
+            rc, o, err = ctx.run_lines(cmd, [lines[i]], timeout=180)
+            return i, (o[0] if (rc == 0 and o) else None), rc
+        with ThreadPoolExecutor(min(8, len(retry))) as ex:
+            for i, l, rc in ex.map(alone, retry):
+                out[i] = l
+                if l is None: dead.append((i, rc))
+    return out, dead
 
 def cut_async(trace):
     out = []
@@ -425,11 +495,11 @@ def cut_async(trace):
     return " ".join(out)
 
 class Case:
-    __slots__ = ("body", "decl", "mode", "probe", "hists", "depths", "create", "tag", "run_hists", "marks", "exp")
-    def __init__(self, body, decl, mode, probe, hists, depths, create, tag):
+    __slots__ = ("body", "decl", "mode", "probe", "hists", "depths", "create", "tag", "exp", "sig", "run_hists", "marks")
+    def __init__(self, body, decl, mode, probe, hists, depths, create, tag, sig=None):
         self.body, self.decl, self.mode, self.probe = body, decl, mode, probe
         self.hists, self.depths, self.create, self.tag = hists, depths, create, tag
-        self.run_hists, self.marks, self.exp = None, None, None
+        self.exp, self.sig, self.run_hists, self.marks = None, sig, None, None
     def src(self): return js_func(self.body, self.mode, self.probe, self.decl)
     def tokens(self): return " ".join(tok_block(self.body))
     def harness_line(self):
@@ -438,45 +508,32 @@ class Case:
     def model_line(self):
         hs = self.hists if self.mode == "gen" else [("n:u " + h).strip() for h in self.hists]
         return "G " + self.tokens() + " # " + " # ".join(hs)
+    def single(self, i):
+        return Case(self.body, self.decl, self.mode, self.probe, [self.hists[i]], [self.depths[i]], [self.create[i]], self.tag, self.sig)
 
-def split_marks(t):
-    """'<trace> @<idx>:<marks>' -> (trace, marks, index of the first command during which a marker fired)"""
-    if "@" in t:
-        t, m = t.rsplit("@", 1)
-        i, m = m.split(":", 1)
-        return t.strip(), m, int(i)
-    return t, "", None
+KNOWN_RETURNING = "goja:go-panic-exception-caught-while-generator-returning"
 
-def expected_traces(case, model_out, cut=True):
-    """Sets case.exp (spec traces), case.marks [(marks, first-marked command index)], case.run_hists (the histories
-    actually sent to goja: a history that triggers known defect B is cut just before the triggering command, because
-    that defect corrupts the vm and would poison the other histories sharing the runtime)."""
+def set_expected(case, model_out, cut=True):
+    """Sets case.exp (spec traces) and case.marks (index of the first command that raises a Go-panic-origin exception
+    while generator.returning is set — territory of the one unrepaired defect, known_findings.d/C09.json — or None).
+    With cut=True such a history is sent to goja only up to that command (case.run_hists): the defect corrupts the vm /
+    crashes the process and would poison the other histories sharing the runtime; a sample is run in full, isolated."""
     tr = model_out.split(" # ")
     exp, marks, run = [], [], []
     for h, t in zip(case.hists, tr):
-        t, m, idx = split_marks(t)
-        parts = t.split(" ") if t else []
+        idx = None
+        if "@" in t:
+            t, i = t.rsplit("@", 1)
+            t, idx = t.strip(), int(i)
         if case.mode == "async":
             t = cut_async(t)
-            if idx is not None and idx >= len(t.split(" ")): idx = None; m = ""
-        hs = h.split(" ") if h else []
-        if cut and "!B" in m and idx is not None and case.mode == "gen":
-            hs = hs[:idx]; t = " ".join(parts[:idx])
-            run.append(" ".join(hs))
+            idx = None
+        if idx is not None and cut:
+            run.append(" ".join(h.split(" ")[:idx])); t = " ".join(t.split(" ")[:idx])
         else:
             run.append(h)
-        exp.append(t); marks.append((m, idx))
+        exp.append(t); marks.append(idx)
     case.exp, case.marks, case.run_hists = exp, marks, run
-    return exp
-
-def evaluate(ctx, harness, model, cases):
-    ml = shard_run(ctx, [model], [c.model_line() for c in cases]) if model else None
-    if ml is None:
-        return shard_run(ctx, [harness], [c.harness_line() for c in cases]), None
-    for c, m in zip(cases, ml):
-        expected_traces(c, m)
-    hl = shard_run(ctx, [harness], [c.harness_line() for c in cases])
-    return hl, ml
 
 def first_diff(exp, obs):
     e, o = exp.split(" "), obs.split(" ")
@@ -485,119 +542,98 @@ def first_diff(exp, obs):
             return i
     return None
 
-def compare(case, hline, mline=None):
-    """-> (mismatches [(i, exp, obs, known-class or None)], mech [[q, obs]], idle, err).  Uses case.exp / case.marks."""
+def compare(case, hline):
+    """-> (mismatches [(i, exp, obs, known?)], mech [[q, obs]], idle, err)"""
     try:
         h = json.loads(hline)
     except Exception:
-        return [(0, "?", "harness output unparsable: " + hline[:200], None)], [], "?", "unparsable"
+        return [(0, "?", "harness output unparsable: " + str(hline)[:200], False)], [], "?", "unparsable"
     if h.get("err"):
-        return [(0, "?", "harness error: " + h["err"], None)], [], h.get("idle", "?"), h["err"]
+        return [(0, "?", "harness error: " + h["err"], False)], [], h.get("idle", "?"), h["err"]
     obs = h.get("traces") or []
     exp = case.exp
     mm = []
     for i in range(max(len(exp), len(obs))):
         if i >= len(exp) or i >= len(obs):
-            mm.append((i, exp[i] if i < len(exp) else "?", obs[i] if i < len(obs) else "?", None)); continue
+            mm.append((i, exp[i] if i < len(exp) else "?", obs[i] if i < len(obs) else "?", False)); continue
         if exp[i] != obs[i]:
-            m, idx = case.marks[i]
+            idx = case.marks[i]
             d = first_diff(exp[i], obs[i])
-            known = None
-            if m and idx is not None and d is not None and d >= idx:
-                known = "A" if "!A" in m else "B"
-            elif "!B" in m and (obs[i].startswith("PANIC") or obs[i].startswith("ERR")):
-                known = "B"     # the whole history aborted: exception escaped the JS driver / Go panic (corrupted vm)
+            known = idx is not None and ((d is not None and d >= idx) or obs[i].startswith("PANIC") or obs[i].startswith("ERR"))
             mm.append((i, exp[i], obs[i], known))
     return mm, h.get("mech") or [], h.get("idle", "ok"), None
 
 # ----------------------------------------------------------------------------------------- shrinking
+def replace_block(s, key, nb):
+    ns = list(s)
+    if key == "c":
+        ns[2] = (s[2][0], nb)
+    else:
+        ns[key] = nb
+    return tuple(ns)
+
 def sub_bodies(body):
-    """Candidate smaller bodies: delete one statement anywhere, or replace a compound statement by one of its blocks."""
+    """Candidate smaller bodies: delete one statement anywhere, hoist a child block, drop a catch / finally."""
     def rec(block):
         for i, s in enumerate(block):
             yield block[:i] + block[i + 1:]
-            t = s[0]
-            subs = []
-            if t == "I": subs = [(2, s[2]), (3, s[3])]
-            elif t == "F": subs = [(3, s[3])]
-            elif t == "W": subs = [(2, s[2])]
-            elif t == "O": subs = [(3, s[3])]
-            elif t == "TR":
-                subs = [(1, s[1])]
-            for idx, sb in subs:
-                if not (t in ("F", "W", "O") and any(z[0] == "BK" for z in sb)):
-                    yield block[:i] + sb + block[i + 1:]
-                for nb in rec(sb):
-                    ns = list(s); ns[idx] = nb
-                    yield block[:i] + [tuple(ns)] + block[i + 1:]
-            if t == "TR":
+            for key, sb in sub_blocks(s):
+                yield block[:i] + list(sb) + block[i + 1:]
+                for nb in rec(list(sb)):
+                    yield block[:i] + [replace_block(s, key, nb)] + block[i + 1:]
+            if s[0] == "TR":
                 if s[2] is not None:
                     yield block[:i] + [("TR", s[1], None, s[3] if s[3] is not None else [])] + block[i + 1:]
-                    for nb in rec(s[2][1]):
-                        yield block[:i] + [("TR", s[1], (s[2][0], nb), s[3])] + block[i + 1:]
-                if s[3] is not None:
-                    if s[2] is not None:
-                        yield block[:i] + [("TR", s[1], s[2], None)] + block[i + 1:]
-                    for nb in rec(s[3]):
-                        yield block[:i] + [("TR", s[1], s[2], nb)] + block[i + 1:]
-    yield from rec(body)
+                if s[3] is not None and s[2] is not None:
+                    yield block[:i] + [("TR", s[1], s[2], None)] + block[i + 1:]
+    yield from rec(list(body))
 
-def has_stray_break(body, inloop=False):
-    for s in body:
-        t = s[0]
-        if t == "BK" and not inloop: return True
-        if t == "I" and (has_stray_break(s[2], inloop) or has_stray_break(s[3], inloop)): return True
-        if t in ("F", "O") and has_stray_break(s[3], True): return True
-        if t == "W" and has_stray_break(s[2], True): return True
-        if t == "TR":
-            if has_stray_break(s[1], inloop): return True
-            if s[2] is not None and has_stray_break(s[2][1], inloop): return True
-            if s[3] is not None and has_stray_break(s[3], inloop): return True
-    return False
-
-def single_mismatch(ctx, harness, model, case, allow_known=False, cut=True):
-    """Run one single-history case through model and harness (fresh runtime); returns (i, exp, obs, known) or None."""
-    ml = ctx.run_lines([model], [case.model_line()], timeout=60)[1]
+def single_mismatch(ctx, harness, model, case, cut=True, allow_known=False):
+    """Run a single-history case through model and harness in a fresh runtime; returns (i, exp, obs, known) or None.
+    A harness timeout is retried once with a long timeout before it counts."""
+    ml = ctx.run_lines([model], [case.model_line()], timeout=120)[1]
     if not ml:
         return None
-    expected_traces(case, ml[0], cut=cut)
-    rc, hl, err = ctx.run_lines([harness], [case.harness_line()], timeout=30)
+    set_expected(case, ml[0], cut=cut)
+    marked = case.marks[0] is not None
+    rc, hl, err = ctx.run_lines([harness], [case.harness_line()], timeout=60)
     if rc == 124 or not hl:
-        return (0, case.exp[0], "goja did not return (hang or crash): " + err[-200:], case.marks[0][0] and ("A" if "!A" in case.marks[0][0] else "B") or None)
-    mm, _, idle, _ = compare(case, hl[0])
-    if not mm and idle != "ok":
-        mm = [(0, case.exp[0] + " / idle ok", json.loads(hl[0]).get("traces", ["?"])[0] + " / " + idle,
-               "B" if (not cut and "!B" in case.marks[0][0]) else None)]
-    mm = [m for m in mm if allow_known or m[3] is None]
+        rc, hl, err = ctx.run_lines([harness], [case.harness_line()], timeout=240)
+    if rc == 124 or not hl:
+        mm = [(0, case.exp[0], "goja did not return within 240 s (hang or crash): " + err[-200:], marked and not cut)]
+    else:
+        mm, _, idle, _ = compare(case, hl[0])
+        if not mm and idle != "ok":
+            mm = [(0, case.exp[0] + " / idle ok", json.loads(hl[0]).get("traces", ["?"])[0] + " / " + idle, marked and not cut)]
+    mm = [m for m in mm if allow_known or not m[3]]
     return mm[0] if mm else None
 
 def shrink(ctx, harness, model, case, i):
     """Minimise (body, history, depths) keeping a model/implementation disagreement."""
-    cur = Case(case.body, case.decl, case.mode, False, [case.hists[i]], [case.depths[i]], [case.create[i]], case.tag)
+    cur = case.single(i)
+    cur.probe = False
     if single_mismatch(ctx, harness, model, cur) is None:
         cur.probe = case.probe
         if single_mismatch(ctx, harness, model, cur) is None:
             return None     # only reproduces in the context of the other histories of the same runtime
-    # shorter history
     toks = cur.hists[0].split(" ")
-    for n in range(1, len(toks)):
-        c2 = Case(cur.body, cur.decl, cur.mode, cur.probe, [" ".join(toks[:n])], [cur.depths[0][:n + 1] if cur.mode == "async" else cur.depths[0][:n]], cur.create, cur.tag)
+    for n in range(1, len(toks)):      # shortest failing prefix
+        c2 = Case(cur.body, cur.decl, cur.mode, cur.probe, [" ".join(toks[:n])],
+                  [cur.depths[0][:n + 1] if cur.mode == "async" else cur.depths[0][:n]], cur.create, cur.tag)
         if single_mismatch(ctx, harness, model, c2) is not None:
             cur = c2
             break
-    # simplest depths / creation site
     c2 = Case(cur.body, cur.decl, cur.mode, cur.probe, cur.hists, ["0" * len(cur.depths[0])], [0], cur.tag)
     if single_mismatch(ctx, harness, model, c2) is not None:
         cur = c2
-    # smaller body
-    budget = 30
+    budget = 40
     progress = True
     while progress and budget > 0:
         progress = False
         for nb in sub_bodies(cur.body):
             budget -= 1
             if budget <= 0: break
-            if not nb or has_stray_break(nb): continue
+            if not nb or bad_jumps(nb): continue
             c2 = Case(nb, cur.decl, cur.mode, cur.probe, cur.hists, cur.depths, cur.create, cur.tag)
             try:
                 if single_mismatch(ctx, harness, model, c2) is not None:
@@ -608,13 +644,11 @@ def shrink(ctx, harness, model, case, i):
                 continue
     return cur
 
-# ----------------------------------------------------------------------------------------- fallback oracle
-CORPUS_SIG = {}      # corpus tag -> signature recorded with a corpus replay (minimised failing input of a listed finding)
-
 def norm_ids(x):
     """Canonical form for signatures: iterator ids are irrelevant to behaviour classes -> 0."""
     if isinstance(x, (list, tuple)):
-        if len(x) == 5 and isinstance(x[0], int) and isinstance(x[4], list) and x[1] in (0, 1, True, False) and isinstance(x[3], int):
+        if len(x) == 5 and isinstance(x[0], int) and not isinstance(x[0], bool) and isinstance(x[4], list) \
+                and x[1] in (0, 1) and isinstance(x[2], int) and isinstance(x[3], int):
             return [0] + [norm_ids(y) for y in x[1:]]
         return [norm_ids(y) for y in x]
     return x
@@ -622,38 +656,26 @@ def norm_ids(x):
 def sig_of(kind, c):
     return "%s:%s" % (kind, hashlib.sha1((" ".join(tok_block(norm_ids(c.body))) + "|" + c.hists[0]).encode()).hexdigest()[:10])
 
-KNOWN_SIG = {
-    "A": "goja:throw-inside-finally-entered-normally-is-caught-by-the-same-try-statements-catch",
-    "B": "goja:throw-inside-finally-entered-by-generator-return-corrupts-exception-propagation",
-}
-
 def replay_dict(c, exp, obs, shrunk):
     return {"kind": "history", "mode": c.mode, "source": c.src(), "body_tokens": c.tokens(), "decl": [c.decl[0], sorted(c.decl[1])],
             "probe": c.probe, "history": c.hists[0], "depths": c.depths[0], "create": c.create[0],
             "expected": exp, "observed": obs, "shrunk": shrunk, "body_ast": json.dumps(c.body)}
 
-def report_case(ctx, harness, model, case, i, exp, obs, kind, known=None):
-    if known:
-        c = Case(case.body, case.decl, case.mode, case.probe, [case.hists[i]], [case.depths[i]], [case.create[i]], case.tag)
-        ctx.violation(KNOWN_SIG[known], "%s {%s} history [%s]: spec %s / goja %s" % (c.mode, c.src()[:260], c.hists[0], exp, obs),
-                      replay_dict(c, exp, obs, False))
-        return
-    if case.tag in CORPUS_SIG and i == 0:
-        c = Case(case.body, case.decl, case.mode, case.probe, [case.hists[0]], [case.depths[0]], [case.create[0]], case.tag)
-        return ctx.violation(CORPUS_SIG[case.tag], "%s {%s} history [%s] depths %s: spec %s / goja %s" % (c.mode, c.src()[:260], c.hists[0], c.depths[0], exp, obs),
+def report_case(ctx, harness, model, case, i, exp, obs, kind):
+    """Shrink and report one disagreement; returns vlib's classification ("new" / "dup" / "known")."""
+    if case.sig and i == 0:          # a corpus replay carries the signature of the finding it regresses
+        c = case.single(0)
+        return ctx.violation(case.sig, "%s {%s} history [%s] depths %s: spec %s / goja %s" % (c.mode, c.src()[:260], c.hists[0], c.depths[0], exp, obs),
                              replay_dict(c, exp, obs, False))
     small = shrink(ctx, harness, model, case, i) if model else None
-    c = small or Case(case.body, case.decl, case.mode, case.probe, [case.hists[i]], [case.depths[i]], [case.create[i]], case.tag)
+    c = small or case.single(i)
     mm = single_mismatch(ctx, harness, model, c) if (model and small) else None
-    mm = mm or (0, exp, obs, None)
-    sig = sig_of(kind, c)
-    return ctx.violation(sig, "%s body {%s} history [%s] depths %s: spec %s / goja %s" %
+    mm = mm or (0, exp, obs, False)
+    return ctx.violation(sig_of(kind, c), "%s body {%s} history [%s] depths %s: spec %s / goja %s" %
                          (c.mode, c.src()[:300], c.hists[0], c.depths[0], mm[1], mm[2]),
                          replay_dict(c, mm[1], mm[2], small is not None))
 
-# ----------------------------------------------------------------------------------------- main
-THEOREMS = 1
-
+# ----------------------------------------------------------------------------------------- cases
 def build_cases(ctx):
     rng = ctx.rng
     quick = ctx.tier == "quick"
@@ -661,40 +683,44 @@ def build_cases(ctx):
     g = Gen(rng)
     ex4 = all_hists(CMDS, 4)
     aex = [h for n in range(0, 5) for h in all_hists(ACMDS, n)]
-    def add_gen(body, decl, tag, hists, probe):
+    def add_gen(body, decl, tag, hists, probe, sig=None):
         cases.append(Case(body, decl, "gen", probe, hists, [rand_digits(rng, len(h.split(" ")), NDEPTH) for h in hists],
-                          [rng.randrange(2) for _ in hists], tag))
-    def add_async(body, decl, tag, hists):
+                          [rng.randrange(2) for _ in hists], tag, sig))
+    def add_async(body, decl, tag, hists, sig=None):
         cases.append(Case(body, decl, "async", False, hists, [rand_digits(rng, len(h.split(" ")) + 1 if h else 1, NSTYLE) for h in hists],
-                          [rng.randrange(2) for _ in hists], tag))
+                          [rng.randrange(2) for _ in hists], tag, sig))
     def sampled(n5, n6):
         return [" ".join(rng.choice(CMDS) for _ in range(5)) for _ in range(n5)] + \
                [" ".join(rng.choice(CMDS) for _ in range(6)) for _ in range(n6)]
-    # 1. corpus
+    # 1. corpus (first): minimised past failures; the recorded history with its recorded depths, then all of length 4
     cdir = os.path.join(ROOT, "corpus", ctx.prop)
     if os.path.isdir(cdir):
         for fn in sorted(os.listdir(cdir)):
             if fn.endswith(".json"):
                 with open(os.path.join(cdir, fn)) as f:
                     d = json.load(f)
-                body = tuplify(json.loads(d["body_ast"]))
+                body = json.loads(d["body_ast"])
                 decl = (d["decl"][0], set(d["decl"][1]))
-                if d.get("signature"):
-                    CORPUS_SIG["corpus:" + fn] = d["signature"]
                 if d.get("mode", "gen") == "gen":
-                    add_gen(body, decl, "corpus:" + fn, [d["history"]] + ex4, bool(d.get("probe")))
-                    cases[-1].depths[0] = d.get("depths", cases[-1].depths[0]); cases[-1].create[0] = d.get("create", 0)
+                    # the recorded history once per host-depth variant of its commands as recorded, plus 7 uniform variants
+                    hs = [d["history"]] * (1 + NDEPTH) + ex4
+                    add_gen(body, decl, "corpus:" + fn, hs, bool(d.get("probe")), d.get("signature"))
+                    c = cases[-1]
+                    n = len(d["history"].split(" "))
+                    c.depths[0] = (d.get("depths") or "0" * n)[:n].ljust(n, "0"); c.create[0] = d.get("create", 0)
+                    for v in range(NDEPTH):
+                        c.depths[1 + v] = str(v) * n; c.create[1 + v] = v % 2
                 else:
-                    add_async(body, decl, "corpus:" + fn, [d["history"]] + aex)
+                    add_async(body, decl, "corpus:" + fn, [d["history"]] + aex, d.get("signature"))
     # 2. systematic bodies: exhaustive length 4 (every history of length <= 4 is a prefix), + sampled 5/6
     for bi, body in enumerate(systematic_bodies()):
         decl = ("llllll" if bi % 2 == 0 else "vvlvll", set([0]) if bi % 3 == 0 else set())
-        add_gen(body, decl, "sys%d" % bi, ex4 + sampled(12, 12), probe=(bi % 2 == 1))
+        add_gen(body, decl, "sys%d" % bi, ex4 + sampled(10, 10), probe=(bi % 2 == 1))
         if async_ok(body):
             add_async(body, decl, "sys%d" % bi, aex)
     # 3. random bodies
-    n_ex = 30 if quick else 200
-    n_sm = 120 if quick else 800
+    n_ex = N_EX_QUICK if quick else N_EX_THOROUGH
+    n_sm = 100 if quick else 1200
     for i in range(n_ex + n_sm):
         body = g.body()
         tries = 0
@@ -702,7 +728,7 @@ def build_cases(ctx):
             body = g.body(); tries += 1
         decl = g.decl()
         if i < n_ex:
-            add_gen(body, decl, "rnd%d" % i, ex4 + sampled(30, 30), probe=rng.random() < 0.5)
+            add_gen(body, decl, "rnd%d" % i, ex4 + sampled(20, 20), probe=rng.random() < 0.5)
         else:
             hs = [" ".join(rng.choice(CMDS) for _ in range(rng.choice([1, 2, 3, 4, 5, 6, 6]))) for _ in range(60)]
             add_gen(body, decl, "rnd%d" % i, hs, probe=rng.random() < 0.5)
@@ -710,41 +736,53 @@ def build_cases(ctx):
             add_async(body, decl, "rnd%d" % i, aex if i < n_ex else [h for h in aex if rng.random() < 0.25])
     return cases
 
-def tuplify(x):
-    if isinstance(x, list):
-        return [tuplify(y) for y in x]
-    return x
+N_EX_QUICK, N_EX_THOROUGH = 20, 400
+N_THEOREMS = 20
 
-def retuple(x):
-    """JSON round trip turns tuples into lists; statements/expressions must be tuples, blocks/arg lists lists."""
-    return x
+RULE = ("one evaluation = one (body, driver history) pair run on goja and on the Lean model (plus one per mechanism dump); "
+        "distinct & non-trivial = distinct (mode, body, history) whose trace contains at least one suspension followed by a further command")
 
+# ----------------------------------------------------------------------------------------- main
 def main(ctx):
-    global THEOREMS
+    t0 = time.time()
     ok, errs = ctx.lake_build(["GojaModel.C09.Props", "model_c09"])
-    names = ctx.audit("GojaModel.C09.Props", expect_min=20)
+    ctx.audit("GojaModel.C09.Props", expect_min=N_THEOREMS)
     if ctx.tier == "thorough":
         ctx.leanchecker("GojaModel.C09.Props")
+    t1 = time.time()
     harness = ctx.go_build()
     model = ctx.model_exe()
     if not os.path.exists(model):
         model = None
     if harness is None:
         return ctx.finish(level="proof", rule=RULE)
+    t2 = time.time()
     cases = build_cases(ctx)
-    ctx.log("cases: %d bodies, %d histories" % (len(cases), sum(len(c.hists) for c in cases)))
-    hl, ml = evaluate(ctx, harness, model, cases)
-    if hl is None:
-        ctx.obligation("corr:harness-run", "correspondence", False, "harness crashed or timed out")
+    ctx.log("cases: %d bodies, %d histories (lean %.0fs, go build %.0fs)" % (len(cases), sum(len(c.hists) for c in cases), t1 - t0, t2 - t1))
+    ml, mdead = shard_run(ctx, [model], [c.model_line() for c in cases], what="model") if model else (None, [])
+    t3 = time.time()
+    if model is not None and ml is not None and not mdead:
+        for c, m in zip(cases, ml):
+            set_expected(c, m)
+    hl, hdead = shard_run(ctx, [harness], [c.harness_line() for c in cases], what="harness")
+    t4 = time.time()
+    ctx.stats["phase_seconds"] = {"lean_build_audit": round(t1 - t0, 1), "go_build": round(t2 - t1, 1), "model_run": round(t3 - t2, 1), "goja_run": round(t4 - t3, 1)}
+    # a line that produced nothing even alone with a generous timeout: goja hung or crashed the process on that body
+    for (i, rc) in hdead[:2]:
+        c = cases[i]
+        ctx.violation("hang:" + hashlib.sha1(c.tokens().encode()).hexdigest()[:10],
+                      "harness did not answer (rc=%s) even alone with a 180 s budget on {%s}" % (rc, c.src()[:300]),
+                      {"kind": "program", "mode": c.mode, "source": c.src(), "body_tokens": c.tokens(), "hists": c.hists[:50], "body_ast": json.dumps(c.body)})
+    ctx.obligation("corr:harness-run", "correspondence", not hdead, "%d lines unanswered" % len(hdead))
+    if model is None or ml is None or mdead:
+        ctx.obligation("corr:model-run", "correspondence", False, "model driver unavailable or failing (Lean build broken?)")
+        indep_oracle(ctx, cases, hl)        # the implementation-side search still runs: laws that need no model
         return ctx.finish(level="proof", rule=RULE)
-    if ml is None:
-        ctx.obligation("corr:model-run", "correspondence", False, "model driver unavailable (Lean build broken?)")
-        # implementation-side search still runs: the state-machine laws that need no model
-        indep_oracle(ctx, cases, hl)
-        return ctx.finish(level="proof", rule=RULE)
-    n_hist = 0; bad_gen = []; bad_async = []; mech = {}; idle_bad = []; known_hits = {"A": [], "B": []}
-    feats = {}; reskinds = {"Y": 0, "D": 0, "T": 0}; lens = {}; depth_used = {}; marked = {"!A": 0, "!B": 0}; cutB = []
+    n_hist = 0; bad = {"gen": [], "async": []}; mech = {}; idle_bad = []; known_hits = []; cut_list = []
+    feats = {}; reskinds = {"Y": 0, "D": 0, "T": 0}; lens = {}; depth_used = {}
     for c, h in zip(cases, hl):
+        if h is None:
+            continue
         mm, mrec, idle, err = compare(c, h)
         n_hist += len(c.hists)
         for q, o in mrec:
@@ -752,15 +790,10 @@ def main(ctx):
         if idle != "ok":
             idle_bad.append((c, idle))
         for (i, e, o, known) in mm:
-            if known:
-                known_hits[known].append((c, i, e, o))
-            else:
-                (bad_gen if c.mode == "gen" else bad_async).append((c, i, e, o))
-        for i, (m, idx) in enumerate(c.marks):
-            for k in marked:
-                if k in m: marked[k] += 1
-            if "!B" in m and c.mode == "gen" and len(cutB) < 4000:
-                cutB.append((c, i))
+            (known_hits if known else bad[c.mode]).append((c, i, e, o))
+        for i, idx in enumerate(c.marks):
+            if idx is not None and len(cut_list) < 5000:
+                cut_list.append((c, i))
         if not mm:
             for f in body_features(c.body):
                 feats[f] = feats.get(f, 0) + 1
@@ -770,90 +803,73 @@ def main(ctx):
                 for ch in kinds:
                     if ch in reskinds: reskinds[ch] += 1
                 lens[len(parts)] = lens.get(len(parts), 0) + 1
-                # non-trivial: the body actually suspended at least once and was resumed
                 if kinds.count("Y") >= 1 and len(kinds) >= 2:
                     ctx.nontriv((c.mode, c.tokens(), c.run_hists[i]))
             if c.mode == "gen":
                 for d in c.depths:
                     for ch in d: depth_used[ch] = depth_used.get(ch, 0) + 1
-    # histories that trigger known defect B were cut before the trigger in the shared runtimes; run a sample of them
-    # in full, each in a fresh process (goja may corrupt its vm, crash or hang there)
-    ctx.rng.shuffle(cutB)
-    cutB.sort(key=lambda ci: 0 if (ci[0].tag.startswith("corpus:") and ci[1] == 0) else 1)   # corpus replays first
-    iso = cutB[:16 if ctx.tier == "quick" else 64]
+    # histories in the territory of the unrepaired defect were cut before the marked command; run a sample in full,
+    # each in a fresh process (corpus replays first)
+    ctx.rng.shuffle(cut_list)
+    cut_list.sort(key=lambda ci: 0 if (ci[0].tag.startswith("corpus:") and ci[1] < 1 + NDEPTH) else 1)
+    iso = cut_list[:12 if ctx.tier == "quick" else 48]
     def run_iso(ci):
-        c, i = ci
-        c1 = Case(c.body, c.decl, c.mode, False, [c.hists[i]], [c.depths[i]], [c.create[i]], c.tag)
-        return c1, single_mismatch(ctx, harness, model, c1, allow_known=True, cut=False)
-    with ThreadPoolExecutor(8) as ex:
-        for c1, mm in ex.map(run_iso, iso):
-            n_hist += 1
-            if mm is not None:
-                if mm[3]:
-                    known_hits[mm[3]].append((c1, 0, mm[1], mm[2]))
-                else:
-                    bad_gen.append((c1, 0, mm[1], mm[2]))
-    ctx.stats["known_defect_triggers"] = {"histories_with_!A": marked["!A"], "histories_with_!B": marked["!B"],
-                                          "B_run_isolated": len(iso), "A_mismatches": len(known_hits["A"]), "B_mismatches": len(known_hits["B"])}
+        c1 = ci[0].single(ci[1])
+        return c1, single_mismatch(ctx, harness, model, c1, cut=False, allow_known=True)
+    if iso:
+        with ThreadPoolExecutor(6) as ex:
+            for c1, mm in ex.map(run_iso, iso):
+                n_hist += 1
+                if mm is not None:
+                    (known_hits if mm[3] else bad["gen"]).append((c1, 0, mm[1], mm[2]))
+    ctx.stats["unrepaired_defect_territory"] = {"histories_cut": len(cut_list), "run_isolated": len(iso), "mismatches_attributed": len(known_hits)}
+    for (c, i, e, o) in known_hits[:1]:
+        c1 = c.single(i)
+        ctx.violation(KNOWN_RETURNING, "%s {%s} history [%s]: spec %s / goja %s" % (c1.mode, c1.src()[:260], c1.hists[0], e, o),
+                      replay_dict(c1, e, o, False))
     ctx.count(n_hist)
     for c in cases[:3] + cases[-3:]:
         ctx.sample({"mode": c.mode, "src": c.src()[:400], "history": c.hists[-1], "depths": c.depths[-1]})
     ctx.stats.update({"bodies": len(cases), "histories": n_hist, "features": dict(sorted(feats.items())),
                       "result_kinds": reskinds, "trace_lengths": dict(sorted(lens.items())), "host_depth_variants": depth_used,
-                      "exhaustive": "all 1296 histories of length 4 (hence all of length <= 4) over {next,throw,return}x{7,'pq'} for the corpus, systematic and first %d random bodies; async: all fulfil/reject histories of length <= 4" % (30 if ctx.tier == "quick" else 200)})
-    # concrete failing inputs first (the spec model is the judge); a disagreement whose minimised form is a listed
-    # known finding is explained, every other one breaks the correspondence obligation
-    unexplained = {"gen": len(bad_gen), "async": len(bad_async)}
-    for lst, kind in ((bad_gen, "gen"), (bad_async, "async")):
-        for (c, i, e, o) in lst[:3]:
+                      "exhaustive": "all 1296 histories of length 4 (hence all of length <= 4) over {next,throw,return}x{7,'pq'} for the corpus, systematic and first %d random bodies; async: all fulfil/reject histories of length <= 4" % (N_EX_QUICK if ctx.tier == "quick" else N_EX_THOROUGH)})
+    # concrete failing inputs (the spec model is the judge); a disagreement whose minimised form is a listed known finding is
+    # explained, every other one breaks the correspondence obligation
+    for kind in ("gen", "async"):
+        unexplained = len(bad[kind])
+        for (c, i, e, o) in bad[kind][:3]:
             if report_case(ctx, harness, model, c, i, e, o, kind) == "known":
-                unexplained[kind] -= 1
-    ctx.obligation("corr:gen-histories", "correspondence", unexplained["gen"] == 0, "%d disagreements (%d unexplained)" % (len(bad_gen), unexplained["gen"]))
-    ctx.obligation("corr:async-histories", "correspondence", unexplained["async"] == 0, "%d disagreements (%d unexplained)" % (len(bad_async), unexplained["async"]))
-    # the vm's stacks at idle: a history inside known-defect territory (marker fired) may leave them dirty — attributed
-    # to that finding; anything else is a violation of "suspension leaves the caller clean"
-    idle_unexplained = []
-    for (c, idle) in idle_bad:
+                unexplained -= 1
+        ctx.obligation("corr:%s-histories" % kind, "correspondence", unexplained == 0,
+                       "%d disagreements (%d unexplained)" % (len(bad[kind]), unexplained))
+    # caller's vm at idle
+    for (c, idle) in idle_bad[:2]:
         try:
             hi = int(idle.split(":")[0].split(" ")[1])
         except Exception:
             hi = 0
-        m = c.marks[hi][0] if c.marks and hi < len(c.marks) else ""
-        c1 = Case(c.body, c.decl, c.mode, c.probe, [c.run_hists[hi]], [c.depths[hi]], [c.create[hi]], c.tag)
-        if m:
-            ctx.violation(KNOWN_SIG["A" if "!A" in m else "B"], "vm stacks dirty after {%s} with [%s]: %s" % (c.src()[:260], c.run_hists[hi], idle),
-                          replay_dict(c1, "idle ok", idle, False))
-        else:
-            idle_unexplained.append(idle)
-            if len(idle_unexplained) <= 2:
-                ctx.violation("idle:" + hashlib.sha1((c.tokens() + c.run_hists[hi]).encode()).hexdigest()[:10],
-                              "vm stacks not restored after driving {%s} with [%s]: %s" % (c.src()[:300], c.run_hists[hi], idle),
-                              replay_dict(c1, "idle ok", idle, False))
-    ctx.obligation("corr:caller-vm-idle-clean", "correspondence", not idle_unexplained, "; ".join(idle_unexplained[:3]))
+        c1 = c.single(hi); c1.hists = [c.run_hists[hi]]
+        ctx.violation("idle:" + hashlib.sha1((c.tokens() + c.run_hists[hi]).encode()).hexdigest()[:10],
+                      "vm stacks not restored after driving {%s} with [%s]: %s" % (c.src()[:300], c.run_hists[hi], idle),
+                      replay_dict(c1, "idle ok", idle, False))
+    ctx.obligation("corr:caller-vm-idle-clean", "correspondence", not idle_bad, "; ".join(i for _, i in idle_bad[:3]))
     # mechanism: suspend / resume rebasing, implementation dumps vs the Lean model
     qs = sorted(mech)
-    mo = shard_run(ctx, [model], qs, nshard=4) if qs else []
+    mo, modead = shard_run(ctx, [model], qs, nshard=4, what="mech") if qs else ([], [])
     mbad = []
     shifts = set()
-    if mo is None:
-        ctx.obligation("corr:mech-shift", "correspondence", False, "model driver failed on mechanism queries")
-    else:
-        for q, o in zip(qs, mo):
-            if o.strip() != mech[q].strip():
-                mbad.append((q, o, mech[q]))
-            if q.startswith("M R"):
-                shifts.add(tuple(q.split(" ")[2:6]))
-        ctx.count(len(qs))
-        ctx.stats["mech_queries"] = len(qs)
-        ctx.stats["mech_distinct_resume_sites(callLen,iterLen,refLen,sp)"] = len(shifts)
-        ctx.stats["mech_nonempty_frame_queries"] = sum(1 for q in qs if int(q.split(" ")[6]) > 0)
-        ctx.obligation("corr:mech-shift", "correspondence", not mbad and len(qs) > 0,
-                       ("%d of %d dumps disagree with Mech.suspend/resume; first: query [%s] model [%s] goja [%s]" %
-                        (len(mbad), len(qs), mbad[0][0], mbad[0][1], mbad[0][2])) if mbad else "%d dumps" % len(qs))
-    # concrete failing inputs (the spec model is the judge)
-    for k in ("A", "B"):
-        for (c, i, e, o) in known_hits[k][:1]:
-            report_case(ctx, harness, model, c, i, e, o, c.mode, known=k)
+    for q, o in zip(qs, mo):
+        if o is None or o.strip() != mech[q].strip():
+            mbad.append((q, o, mech[q]))
+        if q.startswith("M R"):
+            shifts.add(tuple(q.split(" ")[2:6]))
+    ctx.count(len(qs))
+    ctx.stats["mech_queries"] = len(qs)
+    ctx.stats["mech_distinct_resume_sites(callLen,iterLen,refLen,sp)"] = len(shifts)
+    ctx.stats["mech_nonempty_frame_queries"] = sum(1 for q in qs if int(q.split(" ")[6]) > 0)
+    ctx.obligation("corr:mech-shift", "correspondence", not mbad and len(qs) > 0,
+                   ("%d of %d dumps disagree with Mech.suspend/resume; first: query [%s] model [%s] goja [%s]" %
+                    (len(mbad), len(qs), mbad[0][0], mbad[0][1], mbad[0][2])) if mbad else "%d dumps" % len(qs))
     ctx.assumptions += [
         "the generated grammar (design/C09.md) stands for 'all generator bodies'; values are small naturals / short strings / undefined / NaN / TypeError",
         "scripted iterators (IterSpec) stand for 'arbitrary iterators' in yield* and for-of",
@@ -866,15 +882,12 @@ def main(ctx):
     ]
     return ctx.finish(level="proof", rule=RULE)
 
-RULE = ("one evaluation = one (body, driver history) pair run on goja and on the Lean model (plus one per mechanism dump); "
-        "distinct & non-trivial = distinct (mode, body, history) whose trace contains at least one suspension followed by a further command")
-
 def indep_oracle(ctx, cases, hl):
     """Model-free laws on the implementation traces (used when the Lean side is unavailable): determinism of common
-    prefixes across histories (a state machine), absorbing completed state, start-state throw/return."""
-    bad = 0
+    prefixes across histories (a state machine), absorbing completed state."""
+    nbad = 0
     for c, h in zip(cases, hl):
-        if c.mode != "gen": continue
+        if c.mode != "gen" or h is None: continue
         try:
             tr = json.loads(h).get("traces") or []
         except Exception:
@@ -887,7 +900,7 @@ def indep_oracle(ctx, cases, hl):
                 key = " ".join(hs[:n + 1])
                 if n < len(ts):
                     if key in seen and seen[key] != ts[n]:
-                        bad += 1
+                        nbad += 1
                         ctx.violation("prefix:" + hashlib.sha1((c.tokens() + key).encode()).hexdigest()[:10],
                                       "same history prefix [%s] gave %s and %s on {%s}" % (key, seen[key], ts[n], c.src()[:300]),
                                       {"kind": "history", "mode": "gen", "source": c.src(), "history": key, "expected": seen[key], "observed": ts[n]})
@@ -896,13 +909,13 @@ def indep_oracle(ctx, cases, hl):
                     if done:
                         k, p = hs[n].split(":")
                         want = {"n": "D(u)", "t": "T(%s)" % p, "r": "D(%s)" % p}[k]
-                        if ts[n] != ";" + want and r != "T(E)":
-                            bad += 1
+                        if ts[n] != ";" + want:
+                            nbad += 1
                             ctx.violation("absorb:" + hashlib.sha1((c.tokens() + key).encode()).hexdigest()[:10],
                                           "completed generator answered %s to %s on {%s}" % (ts[n], hs[n], c.src()[:300]),
                                           {"kind": "history", "mode": "gen", "source": c.src(), "history": key, "expected": want, "observed": ts[n]})
-                    if r[0] in "DT": done = True
-    ctx.obligation("oracle:state-machine-laws", "correspondence", bad == 0, "%d" % bad)
+                    if r[:1] in ("D", "T"): done = True
+    ctx.obligation("oracle:state-machine-laws", "correspondence", nbad == 0, "%d" % nbad)
 
 def replay(ctx, path):
     with open(path) as f:
@@ -912,20 +925,26 @@ def replay(ctx, path):
     harness = ctx.go_build()
     ctx.lake_build(["model_c09"])
     model = ctx.model_exe()
-    line = json.dumps({"mode": d.get("mode", "gen"), "src": d["source"], "hists": [d["history"]],
-                       "depths": [d.get("depths", "0" * 8)], "create": [d.get("create", 0)], "probe": bool(d.get("probe"))})
-    rc, out, err = ctx.run_lines([harness], [line])
-    print("source   :", d["source"])
+    mode = d.get("mode", "gen")
+    body = json.loads(d["body_ast"]) if d.get("body_ast") else None
+    src = js_func(body, mode, bool(d.get("probe")), (d["decl"][0], set(d["decl"][1]))) if body else d["source"]
+    n = len(d["history"].split(" ")) + 1
+    line = json.dumps({"mode": mode, "src": src, "hists": [d["history"]],
+                       "depths": [(d.get("depths") or "").ljust(n, "0")], "create": [d.get("create", 0)], "probe": bool(d.get("probe"))})
+    rc, out, err = ctx.run_lines([harness], [line], timeout=240)
+    print("source   :", src)
     print("history  :", d["history"], " depths:", d.get("depths"))
     obs = json.loads(out[0]) if out else {}
     print("goja     :", (obs.get("traces") or ["?"])[0], obs.get("err", ""), "idle=" + str(obs.get("idle")))
     exp = "?"
-    if d.get("body_tokens") and os.path.exists(model):
-        h = d["history"] if d.get("mode", "gen") == "gen" else ("n:u " + d["history"]).strip()
-        rc, mo, _ = ctx.run_lines([model], ["G " + d["body_tokens"] + " # " + h])
-        exp, marks, idx = split_marks(mo[0]) if mo else ("?", "", None)
-        if d.get("mode") == "async": exp = cut_async(exp)
-        if marks: print("note     : history triggers known-defect marker(s)", marks, "at command", idx)
+    if body and os.path.exists(model):
+        h = d["history"] if mode == "gen" else ("n:u " + d["history"]).strip()
+        rc, mo, _ = ctx.run_lines([model], ["G " + " ".join(tok_block(body)) + " # " + h])
+        exp = mo[0] if mo else "?"
+        if "@" in exp:
+            exp, i = exp.rsplit("@", 1); exp = exp.strip()
+            print("note     : from command %s on the history is in the territory of the unrepaired finding %s" % (i, KNOWN_RETURNING))
+        if mode == "async": exp = cut_async(exp)
     print("spec     :", exp)
     same = (obs.get("traces") or ["?"])[0] == exp and obs.get("idle") == "ok"
     print("AGREE" if same else "DISAGREE")
